@@ -529,7 +529,11 @@ func randNetpol(r *rng, f *Features, ns, name string) Doc {
 		// (rules that were merged by hand from two sources; the analysis must treat both spellings as one peer)
 		if len(np.Spec.Egress) > 0 && r.chance(1, 2) {
 			src := pick(r, np.Spec.Egress)
-			np.Spec.Egress = append(np.Spec.Egress, netv1.NetworkPolicyEgressRule{To: respellPeers(r, src.To), Ports: randNPPorts(r, f, false)})
+			toIP := len(src.To) == 0 // a named port cannot be resolved for an address: such a rule is an error, not a spelling
+			for _, p := range src.To {
+				toIP = toIP || p.IPBlock != nil
+			}
+			np.Spec.Egress = append(np.Spec.Egress, netv1.NetworkPolicyEgressRule{To: respellPeers(r, src.To), Ports: randNPPorts(r, f, toIP)})
 		} else if len(np.Spec.Ingress) > 0 {
 			src := pick(r, np.Spec.Ingress)
 			np.Spec.Ingress = append(np.Spec.Ingress, netv1.NetworkPolicyIngressRule{From: respellPeers(r, src.From), Ports: randNPPorts(r, f, false)})
